@@ -1,6 +1,7 @@
 import PygVerif.Generated
 import PygVerif.Lemmas.TalRefine
 import PygVerif.Model.Metal
+import PygVerif.Model.Include
 /-!
 # C17 — simpleTAL executes templates according to TAL/TALES semantics
 
@@ -268,5 +269,59 @@ def isInt (v : Val) (n : Int) : Bool := match v with | .int t => t == n | _ => f
 #guard isInt (eval (fun _ => .none) { globals := [(lit "l", .list [])] } (lit "not:l")) 1
 #guard isInt (eval (fun _ => .none) {} (lit "exists:nothing")) 1
 example : lowerRoman 1993 = lit "mcmxciv" ∧ lowerLetter 0 = lit "a" ∧ lowerLetter 27 = lit "bb" := by decide +kernel
+
+/-! ### templates included through `structure` (`Model/Include`) -/
+
+/-- **Refinement carries over to included templates.**  For every table of templates, page and
+    context, the stack machine run on the compiled page with the included templates' nodes
+    substituted yields exactly the denotation of that tree. -/
+theorem include_then_tal_refines (py : Str → Val) (tpls : List (Str × List Node)) (fuel : Nat) (t : List Node) (ctx : Ctx) :
+    ∃ f, expand py f (inlineList tpls fuel t) ctx = some (denoteList py (inlineList tpls fuel t) ctx) :=
+  Tal.run_refines_denote py _ ctx
+
+/-- `tal:content="structure T"` with `T` a template of the table: the element keeps its tag and its
+    other commands; its children are the template's nodes (themselves substituted) -/
+theorem content_include_substitutes (tpls : List (Str × List Node)) (fuel : Nat) (tag : Str) (atts orig : List (Str × Str))
+    (c : Cmds) (sg ne : Bool) (kids body : List Node) (e : Str)
+    (hc : c.content = some (false, true, e)) (ht : tplLookup tpls e = some body) :
+    inlineNode tpls (fuel + 1) (.elem tag atts orig c sg ne kids) =
+      .elem tag atts orig { c with content := none } sg ne (inlineList tpls fuel body) := by
+  simp [inlineNode, hc, ht]
+
+/-- `tal:replace="structure T"`: the same with the element's own tag omitted -/
+theorem replace_include_substitutes (tpls : List (Str × List Node)) (fuel : Nat) (tag : Str) (atts orig : List (Str × Str))
+    (c : Cmds) (sg ne : Bool) (kids body : List Node) (e : Str)
+    (hc : c.content = some (true, true, e)) (ht : tplLookup tpls e = some body) :
+    inlineNode tpls (fuel + 1) (.elem tag atts orig c sg ne kids) =
+      .elem tag atts orig { c with content := none, omitTag := some alwaysTrue } sg ne (inlineList tpls fuel body) := by
+  simp [inlineNode, hc, ht]
+
+/-- an expression that does not name a template of the table leaves the element as it is -/
+theorem no_template_no_substitution (tpls : List (Str × List Node)) (fuel : Nat) (tag : Str) (atts orig : List (Str × Str))
+    (c : Cmds) (sg ne : Bool) (kids : List Node)
+    (h : ∀ rep e, c.content = some (rep, true, e) → tplLookup tpls e = none) :
+    inlineNode tpls (fuel + 1) (.elem tag atts orig c sg ne kids) = .elem tag atts orig c sg ne (inlineList tpls fuel kids) := by
+  unfold inlineNode
+  cases hc : c.content with
+  | none => rfl
+  | some v =>
+    obtain ⟨rep, raw, e⟩ := v
+    cases raw with
+    | false => rfl
+    | true => simp [h rep e hc]
+
+mutual
+/-- **With no template in the table nothing changes**: pages that include nothing are left alone -/
+theorem include_free_node : ∀ (n : Node) (fuel : Nat), inlineNode [] fuel n = n
+  | .data s, fuel => by cases fuel <;> simp [inlineNode]
+  | .elem tag atts orig c sg ne kids, 0 => by simp [inlineNode]
+  | .elem tag atts orig c sg ne kids, fuel + 1 => by
+    rw [no_template_no_substitution [] fuel tag atts orig c sg ne kids (fun _ _ _ => by simp [tplLookup])]
+    rw [include_free_list kids fuel]
+theorem include_free_list : ∀ (ns : List Node) (fuel : Nat), inlineList [] fuel ns = ns
+  | [], fuel => by simp [inlineList]
+  | k :: ks, fuel => by simp [inlineList, include_free_node k fuel, include_free_list ks fuel]
+end
+
 
 end Pyg.Props.C17
